@@ -111,6 +111,48 @@ func (e *Enc) callSiteClauses(fr *Frame, v *ssa.Call, cc *ssa.CallCommon, st *St
 	}
 }
 
+// panicSiteClauses: `callsite @panic#k L: e` - an assertion about the value an explicit panic of the function under
+// proof is raised with (arg(0)), at the k-th panic statement in source order.
+func (e *Enc) panicSiteClauses(fr *Frame, x *ssa.Panic, st *State, reach Term, pos string) {
+	if !fr.isTop || fr.con == nil || len(fr.con.CallSites) == 0 {
+		return
+	}
+	var ps []*ssa.Panic
+	for _, b := range fr.fn.Blocks {
+		for _, ins := range b.Instrs {
+			if p, ok := ins.(*ssa.Panic); ok {
+				ps = append(ps, p)
+			}
+		}
+	}
+	sort.SliceStable(ps, func(i, j int) bool { return ps[i].Pos() < ps[j].Pos() })
+	k := 0
+	for i, p := range ps {
+		if p == x {
+			k = i + 1
+		}
+	}
+	name := fmt.Sprintf("@panic#%d", k)
+	for _, cs := range fr.con.CallSites {
+		if cs.Callee != name && cs.Callee != "@panic" {
+			continue
+		}
+		if e.csHit == nil {
+			e.csHit = map[string]bool{}
+		}
+		e.csHit[cs.Callee+" "+cs.Clause.Label] = true
+		env := e.loopEnv(fr, x.Block(), st, nil)
+		env.pre = nil
+		env.vars["$arg0"] = TT{e.val(fr, x.X), x.X.Type()}
+		g, err := env.evalBool(cs.Clause.E)
+		if err != nil {
+			e.problem("callsite %s %s: %v", cs.Callee, cs.Clause.Label, err)
+			continue
+		}
+		e.oblige(fmt.Sprintf("%s:callsite:%s:%s", e.topName(), name, cs.Clause.Label), "ensures", reach, g, pos)
+	}
+}
+
 // dynOrdinal: position (from 1, in source order) of a call through a function value among such calls of fn.
 func dynOrdinal(fn *ssa.Function, v *ssa.Call) int {
 	var calls []*ssa.Call
@@ -1375,6 +1417,15 @@ func (e *Enc) stepObligations(fr *Frame, h *ssa.BasicBlock, guard Term, st *Stat
 			name = fmt.Sprintf("%s:loop%d:step:%s:%s#%d", prefix, lc.info.ordinal, sc.Label, strings.SplitN(tag, "-", 2)[0], e.counters[ck])
 		}
 		e.oblige(name, "invariant", guard, g, e.pos(fr, loopPos(h)))
+		if imp, ok := sc.E.(*CBin); ok && imp.Op == "==>" && fr.isTop {
+			if a, err := env.evalBool(imp.X); err == nil {
+				if e.stepCover == nil {
+					e.stepCover = map[string][]Term{}
+				}
+				ck := fmt.Sprintf("%s:cover:step%d:%s", prefix, lc.info.ordinal, sc.Label)
+				e.stepCover[ck] = append(e.stepCover[ck], and(guard, a))
+			}
+		}
 	}
 }
 
